@@ -156,7 +156,12 @@ BadPairs(e)       == { q \in CheckedPairs(e) : Unaccounted(e, q) # 0 }
 \* a staking record of the period holds a negative value (the pending handlers computed one): as observed, the code then
 \* cannot encode the record and skips the take-effect phase of the whole period
 NegRec(o)         == \E i \in DOMAIN o.recs : o.recs[i].fv < 0
-ActDisc(e)        == IF NegRec(prev) THEN {"negative_record"} ELSE {"not_activated"}
+\* after the end-of-block work no validator with a stake is online (the last one was penalised in this very step): as
+\* observed, distributeRewards then reports "empty stake" and endStakingPeriod returns before the withdraw queue and the
+\* pending transactions are processed
+NoOnlineStake(o)  == \A i \in DOMAIN o.vals : ~o.vals[i].on \/ o.vals[i].stk <= 0
+ActDisc(e)        == IF NegRec(prev) THEN {"negative_record"}
+                     ELSE IF NoOnlineStake(e.obs) THEN {"no_online_stake"} ELSE {"not_activated"}
 RECURSIVE SumSet(_, _)
 SumSet(S, e)      == IF S = {} THEN 0 ELSE LET q == CHOOSE x \in S : TRUE IN Unaccounted(e, q) + SumSet(S \ {q}, e)
 
